@@ -57,9 +57,9 @@ def run(ck, fb):
     else:
         ck.analysed(r)
         gv = r.calls(r'NodeManage::get_all_valid_nodes$')
-        ck.require(len(gv) == 1, 'R14a', 'route_addr:valid-nodes', r.where(), 'route_addr does not route over the valid nodes')
+        ck.require(len(gv) >= 1, 'R14a', 'route_addr:valid-nodes', r.where(), 'route_addr does not route over the valid nodes')
         rem = [st for (i, j, st) in r.stmts() if st.get('rv', {}).get('k') == 'bin' and st['rv']['op'] == 'Rem']
-        ck.require(len(rem) == 1, 'R14a', 'route_addr:hash-mod-len', r.where(), 'route_addr does not compute hash % len')
+        ck.require(len(rem) >= 1, 'R14a', 'route_addr:hash-mod-len', r.where(), 'route_addr does not compute hash % len')
         if rem and gv:
             t = Taint(r, local_src=[gv[0].dst] if isinstance(gv[0].dst, int) else [])
             th = Taint(r, call_src=lambda t: (t.get('f') or {}).get('d', '').endswith('Hasher::finish'))
@@ -119,9 +119,9 @@ def run(ck, fb):
     nu = ck.body(NA + 'update_instance', 'R14e')
     if nu:
         irs = nu.calls(re.escape(PR + 'is_range') + '$')
-        ck.require(len(irs) == 1, 'R14e', 'update_instance:is_range', nu.where(), 'ownership is not decided by ProcessRange::is_range')
+        ck.require(len(irs) >= 1, 'R14e', 'update_instance:is_range', nu.where(), 'ownership is not decided by ProcessRange::is_range')
         for s in irs:
             t = Taint(nu, call_src=lambda t: (t.get('f') or {}).get('d', '').endswith('get_hash_value'))
             ck.require(t.op_tainted(s.args[1]) and util.recv_fields(nu, s)[-1:] == ['0'] or t.op_tainted(s.args[1]), 'R14e', 'update_instance:hash-of-key', s.where(), 'is_range is not applied to the hash of the service key')
             hv2 = nu.calls(r'get_hash_value')
-            ck.require(len(hv2) == 1, 'R14e', 'update_instance:get_hash_value', nu.where(), 'get_hash_value not used')
+            ck.require(len(hv2) >= 1, 'R14e', 'update_instance:get_hash_value', nu.where(), 'get_hash_value not used')
